@@ -129,7 +129,6 @@ pub mod flexi_logger {
     //@   ret r
     //@   props C02
     //@   req[primary_enabled.pre.report] super::util::reportable(ErrorCode::Poison)
-    //@   closure 1 sig |e: std::sync::PoisonError<std::sync::RwLockReadGuard<'_, LogSpecification>>| -> (r: ())
     //@   ens[primary_enabled.post] r == self.active().enabled_spec(level, module@)
     //@   canary
     }
@@ -191,12 +190,10 @@ pub mod flexi_logger {
     //@   loop 1 iter it
     //@   loop 1 inv[log.loop.default] use_default ==> exists|k: int| 0 <= k < it.index@ && #[trigger] pieces(record_target(record))[k] == "_Default"@
     //@   loop 1 inv it.seq().len() == pieces(record_target(record)).len() && forall|k: int| 0 <= k < it.seq().len() ==> (#[trigger] it.seq()[k])@ == pieces(record_target(record))[k]
-    //@   closure 1 sig |e: std::io::Error| -> (r: ())
-    //@   closure 2 sig |text_filter: Option<&Regex>| -> (r: bool)
-    //@   closure 2 ens r == match text_filter { Some(re) => regex_is_match(re, record_msg(record)), None => true }
-    //@   closure 3 sig |filter: &Regex| -> (r: bool)
-    //@   closure 3 ens r == regex_is_match(filter, record_msg(record))
-    //@   closure 4 sig |e: std::io::Error| -> (r: ())
+    //@   closure ~text_filter.map_or ## sig |text_filter: Option<&Regex>| -> (r: bool)
+    //@   closure ~text_filter.map_or ## ens r == match text_filter { Some(re) => regex_is_match(re, record_msg(record)), None => true }
+    //@   closure ~filter.is_match ## sig |filter: &Regex| -> (r: bool)
+    //@   closure ~filter.is_match ## ens r == regex_is_match(filter, record_msg(record))
     //@   canary
     //@ fn src/flexi_logger.rs impl log::Log for FlexiLogger / fn flush
     //@   attr #[verifier::loop_isolation(false)]
